@@ -515,6 +515,16 @@ class EndpointResponseHandlerGenerator:
 
                 writer.dedent()
 
+        # A primary success response declared as the range '2XX' is matched after the exact codes
+        if primary_success_ir and not processed_primary_success and primary_success_ir.status_code.upper() == "2XX":
+            writer.write_line("case _ if 200 <= response.status_code < 300:")
+            writer.indent()
+            if strategy.return_type == "None":
+                writer.write_line("return None")
+            else:
+                self._write_strategy_based_return(writer, strategy, context)
+            writer.dedent()
+
         # Handle default case
         default_response = next((r for r in op.responses if r.status_code == "default"), None)
         if default_response:
